@@ -33,6 +33,14 @@ ZONES = [
     "America/Sao_Paulo",
     "Australia/Sydney",
     "America/Los_Angeles",
+    # zones that are easily mistaken for one another: the same pair of abbreviations with different offsets
+    # (CST/CDT: Chicago, Havana; CST/CST: Shanghai, Regina), the same offset on most days but not on all (Lagos, Berlin in winter)
+    "America/Chicago",
+    "America/Havana",
+    "Asia/Shanghai",
+    "America/Regina",
+    "Africa/Lagos",
+    "Europe/Berlin",
 ]
 
 
